@@ -2,7 +2,7 @@ CONSTANTS
   NArb = 1
   Thr = {t1, t2}
   PreCreated = 1
-  Kinds = {"spawn", "spawn_fn"}
+  Kinds = {"spawn"}
   TaskStop = FALSE
   AtomicCalls = FALSE
   EagerJoin = FALSE
